@@ -231,7 +231,8 @@ def export_plan(dag):
             ch = getattr(t, "chunks", None)
             arrays[n] = dict(name=n, path=target_path(t), prod=None, shape=list(getattr(t, "shape", ()) or ()),
                              dtype=str(dt if dt is not None else ""), kind=type(t).__name__, nfields=nfields,
-                             chunks=list(ch) if isinstance(ch, (tuple, list)) and all(isinstance(c, int) for c in ch) else None)
+                             chunks=list(ch) if isinstance(ch, (tuple, list)) and all(isinstance(c, int) for c in ch) else None,
+                             shards=(list(getattr(t, "shards", None) or ()) or None) if type(t).__name__ != "LazyZarrArray" else None)
     for n, d in nodes.items():
         po = d.get("primitive_op")
         if po is None:
